@@ -75,6 +75,7 @@ type Conn struct {
 	// the setup worker has written the CONNACK)
 	onWrite          func()
 	stallWrites      bool
+	writeBlocked     bool
 	hasWriteDeadline bool
 	writeDeadline    time.Duration // virtual
 	head             []byte        // first bytes consumed (at most 5)
@@ -130,6 +131,13 @@ func (c *Conn) StallWrites(on bool) {
 	c.mu.Unlock()
 }
 
+// WriteBlocked reports whether a broker write is currently blocked on this stalled connection.
+func (c *Conn) WriteBlocked() bool {
+	c.mu.Lock()
+	defer c.mu.Unlock()
+	return c.writeBlocked
+}
+
 // OnNextWrite arms a one-shot hook that runs at the start of the broker's next write to this
 // connection, outside the connection's lock (so that it may close the client side and wait
 // for the broker to notice): a connection that dies exactly while something is written to it.
@@ -152,7 +160,9 @@ func (c *Conn) Write(p []byte) (int, error) {
 		if c.hasWriteDeadline && c.clk.Now() >= c.writeDeadline {
 			return 0, timeoutErr{} // the write deadline passed while the peer was not reading
 		}
+		c.writeBlocked = true
 		c.cond.Wait() // the peer does not read and every buffer on the way is full
+		c.writeBlocked = false
 	}
 	if c.hasWriteDeadline && c.clk.Now() >= c.writeDeadline && !c.brokerClosed {
 		// as on a socket: a write attempted after the write deadline fails at once
